@@ -1,0 +1,48 @@
+//go:build verif
+
+// Contracts for action_result.go, checked by /verif (govc). Comment-only file.
+//
+// validAR is written from property C11 ("paths and digests are well formed"),
+// not from the code: reMatch(HashKeyRegex, h) is the uninterpreted meaning of
+// "h is 64 lower-case hex digits".
+
+package validate
+
+//@ pred hex64(h) = reMatch(ref(HashKeyRegex), h)
+//@ pred vDigNN(d) = #remoteexecution.Digest.SizeBytes[d] >= 0 && hex64(#remoteexecution.Digest.Hash[d])
+//@ pred vDig(d) = d == 0 || vDigNN(d)
+//@ pred relPath(p) = !hasPrefix(p, "/")
+//@ pred vFile(f) = f != 0 && #remoteexecution.OutputFile.Path[f] != "" && relPath(#remoteexecution.OutputFile.Path[f]) &&
+//@     #remoteexecution.OutputFile.Digest[f] != 0 && vDigNN(#remoteexecution.OutputFile.Digest[f])
+//@ pred vDir(d) = d != 0 && relPath(#remoteexecution.OutputDirectory.Path[d]) &&
+//@     #remoteexecution.OutputDirectory.TreeDigest[d] != 0 && vDigNN(#remoteexecution.OutputDirectory.TreeDigest[d])
+//@ pred vSym(s) = s != 0 && #remoteexecution.OutputSymlink.Path[s] != "" && #remoteexecution.OutputSymlink.Target[s] != "" && relPath(#remoteexecution.OutputSymlink.Path[s])
+//@ pred lo(s) = offset(s)
+//@ pred hi(s) = offset(s) + len(s)
+//@ pred validAR(ar) = ar != nil &&
+//@   (forall k Int :: (lo(ar.OutputFiles) <= k && k < hi(ar.OutputFiles)) ==> vFile(elems(ar.OutputFiles)[k])) &&
+//@   (forall k Int :: (lo(ar.OutputDirectories) <= k && k < hi(ar.OutputDirectories)) ==> vDir(elems(ar.OutputDirectories)[k])) &&
+//@   (forall k Int :: (lo(ar.OutputFileSymlinks) <= k && k < hi(ar.OutputFileSymlinks)) ==> vSym(elems(ar.OutputFileSymlinks)[k])) &&
+//@   (forall k Int :: (lo(ar.OutputSymlinks) <= k && k < hi(ar.OutputSymlinks)) ==> vSym(elems(ar.OutputSymlinks)[k])) &&
+//@   (forall k Int :: (lo(ar.OutputDirectorySymlinks) <= k && k < hi(ar.OutputDirectorySymlinks)) ==> vSym(elems(ar.OutputDirectorySymlinks)[k])) &&
+//@   vDig(ref(ar.StdoutDigest)) && vDig(ref(ar.StderrDigest))
+
+//@ func maybeNilDigest(d *pb.Digest) error
+//@   serves C11 C14
+//@   ensures[C11] sound: result == nil ==> vDig(ref(d))
+//@   ensures[C11] complete: vDig(ref(d)) ==> result == nil
+
+//@ func ActionResult(ar *pb.ActionResult) error
+//@   serves C06 C11 C14
+//@   ensures[C11] sound: result == nil ==> validAR(ar)
+//@   ensures[C11] complete: validAR(ar) ==> result == nil
+//@   loop 0 invariant files: forall k Int :: (lo(ar.OutputFiles) <= k && k < lo(ar.OutputFiles) + rangeindex + 1) ==> vFile(elems(ar.OutputFiles)[k])
+//@   loop 0 modifies nothing
+//@   loop 1 invariant dirs: forall k Int :: (lo(ar.OutputDirectories) <= k && k < lo(ar.OutputDirectories) + rangeindex + 1) ==> vDir(elems(ar.OutputDirectories)[k])
+//@   loop 1 modifies nothing
+//@   loop 2 invariant fsyms: forall k Int :: (lo(ar.OutputFileSymlinks) <= k && k < lo(ar.OutputFileSymlinks) + rangeindex + 1) ==> vSym(elems(ar.OutputFileSymlinks)[k])
+//@   loop 2 modifies nothing
+//@   loop 3 invariant syms: forall k Int :: (lo(ar.OutputSymlinks) <= k && k < lo(ar.OutputSymlinks) + rangeindex + 1) ==> vSym(elems(ar.OutputSymlinks)[k])
+//@   loop 3 modifies nothing
+//@   loop 4 invariant dsyms: forall k Int :: (lo(ar.OutputDirectorySymlinks) <= k && k < lo(ar.OutputDirectorySymlinks) + rangeindex + 1) ==> vSym(elems(ar.OutputDirectorySymlinks)[k])
+//@   loop 4 modifies nothing
